@@ -41,7 +41,8 @@ EXTENDS FieldMapRule, Json, SequencesExt
 CONSTANTS MaxMaps,      \* mappings per declaration
           SrcNames, TgtNames,  \* which paths of the universe are in play (names below)
           DstKind,      \* the successor's input type: "struct" VfmDst | "maps" map[string]string | "mapa" map[string]any | "str" string
-          SrcKind,      \* "struct": the predecessors return VfmSrc | "map": they return a map[string]any, stream-natively, in chunks
+          SrcKind,      \* "struct": the predecessors return VfmSrc | "dst": the mapping source is START of a Workflow[VfmDst, string] (the field-mapped
+                        \* node is a PASS-THROUGH typed from START: source and target type are both VfmDst) | "map": they return a map[string]any, stream-natively, in chunks
           RepoFixes,    \* repairs already applied to the tree under test (fixed: lines of known_findings.txt): used for the prediction
           VarSet        \* variants of the predecessors' value in play (a case gets "full" and those of VarSet relevant to its sources)
 
@@ -70,7 +71,14 @@ DT == CASE DstKind = "struct" -> TDst [] DstKind = "maps" -> TMapS [] DstKind = 
 
 \* the predecessors' output type
 TMapSrc == [k |-> "map", n |-> "map[string]any", e |-> TAny]
-ST == IF SrcKind = "map" THEN TMapSrc ELSE TSrc
+ST == IF SrcKind = "map" THEN TMapSrc ELSE IF SrcKind = "dst" THEN TDst ELSE TSrc
+\* PASS-THROUGH NODES.  A pass-through hands its input on unchanged; it has no type of its own: it takes the helper (incl. the converter
+\* that assembles a field-mapped input) of the first neighbour whose edge is resolved - START (then its input type is the workflow's
+\* INPUT type I), a predecessor, or a successor (genericHelper.forPredecessorPassthrough / forSuccessorPassthrough; the order
+\* depends on map iteration, so the harness compiles such cases several times).  Whatever the order, the node field mappings point
+\* INTO must receive exactly Set(zero of its input type, {target -> Get(Out(pred), source)}), and mappings OUT of a pass-through read
+\* the predecessor's value.  In this model a pass-through is therefore the identity and the cases only say where it sits (pt).
+Passthrough(v) == v
 
 (* Values *)
 VStr(s) == [k |-> "str", s |-> s]
@@ -140,7 +148,10 @@ SrcVal(pred, var) ==
    mode the edge's field mapping, checker and converter work chunk by chunk.  Variant "dense" = one chunk with every key,
    "sparse" = ONE KEY PER CHUNK (a mapped key is then absent from most chunks). *)
 MapVal(pred) == VMap(TMapSrc, ("s" :> VAny(VStr(Nm(pred, "s")))) @@ ("t" :> VAny(VStr(Nm(pred, "t")))) @@ ("n" :> VAny(VInt(5))) @@ ("i" :> VAny(LeafIn(pred, "i"))))
-PredVal(pred, var) == IF SrcKind = "map" THEN MapVal(pred) ELSE SrcVal(pred, var)
+\* the workflow input of the START-typed pass-through flavour: a full VfmDst value
+DstVal(pred) == VStruct(TDst, [S |-> VStr(Nm(pred, "S")), N |-> VInt(5), A |-> MidVal(pred, "A"), B |-> VPtr(TPMid, MidVal(pred, "B")),
+                               M |-> VMap(TMapS, ("k" :> VStr(Nm(pred, "M.k")))), MI |-> VNilMap(TMapI), MM |-> VNilMap(TMapM), X |-> VNilAny])
+PredVal(pred, var) == IF SrcKind = "map" THEN MapVal(pred) ELSE IF SrcKind = "dst" THEN Passthrough(DstVal(pred)) ELSE SrcVal(pred, var)
 PredChunks(pred, var) == IF SrcKind = "map" /\ var = "sparse"
                          THEN LET m == MapVal(pred).m IN [i \in 1..4 |-> VMap(TMapSrc, (<<"i", "n", "s", "t">>[i] :> m[<<"i", "n", "s", "t">>[i]]))]
                          ELSE <<PredVal(pred, var)>>
@@ -368,7 +379,7 @@ GenInit == decl = <<>> /\ var = "full" /\ phase = "grow"
 AddToLast(pr) == /\ phase = "grow" /\ Len(decl) > 0 /\ NMaps < MaxMaps /\ Len(decl[Len(decl)].maps) > 0
                  /\ ~(\E i \in 1..Len(decl[Len(decl)].maps) : (decl[Len(decl)].maps[i].sn = "all" /\ pr[2] = "all") \/ (decl[Len(decl)].maps[i].tn = "all" /\ pr[1] = "all"))
                  /\ decl' = [decl EXCEPT ![Len(decl)].maps = Append(@, Mk(pr))] /\ UNCHANGED <<var, phase>>
-OpenGroup(pr) == /\ phase = "grow" /\ Len(decl) < 2 /\ NMaps < MaxMaps
+OpenGroup(pr) == /\ phase = "grow" /\ Len(decl) < (IF SrcKind = "dst" THEN 1 ELSE 2) /\ NMaps < MaxMaps
                  /\ decl' = Append(decl, [pred |-> IF Len(decl) = 0 THEN "p1" ELSE "p2", maps |-> <<Mk(pr)>>]) /\ UNCHANGED <<var, phase>>
 \* AddInput(pred) without any mapping (the whole output as the whole input); in play when the whole-input target is
 OpenWhole == /\ phase = "grow" /\ Len(decl) < 2 /\ NMaps < MaxMaps /\ SrcKind = "struct" /\ DstKind = "struct" /\ "all" \in TgtNames
@@ -396,7 +407,8 @@ Emit == phase = "done" =>
                            predf |-> SetToSeq(Reasons(ModelLine(decl, var, FALSE, RepoFixes))),
                            predf2 |-> SetToSeq(Reasons(ModelLine(decl, var, TRUE, RepoFixes)))])>>)
 \* the predecessors' values of the model, for the cross-check with the harness
-SrcFlats == IF SrcKind = "map" THEN \A v \in {"dense", "sparse"} : PrintT(<<"SRCFLAT", v, ToJson(SetToSeq(Flat(MapVal("p1"), <<>>, TRUE)))>>)
+SrcFlats == IF SrcKind = "dst" THEN PrintT(<<"SRCFLAT", "full", ToJson(SetToSeq(Flat(DstVal("p1"), <<>>, TRUE)))>>)
+            ELSE IF SrcKind = "map" THEN \A v \in {"dense", "sparse"} : PrintT(<<"SRCFLAT", v, ToJson(SetToSeq(Flat(MapVal("p1"), <<>>, TRUE)))>>)
             ELSE \A v \in Variants : PrintT(<<"SRCFLAT", v, ToJson(SetToSeq(Flat(SrcVal("p1", v), <<>>, TRUE)))>>)
 ASSUME SrcFlats
 =============================================================================
